@@ -95,7 +95,8 @@ def confirm(d):
 
         def demo():
             shutil.copy(demo_src, dst)
-            rc, o = sh(["go", "test", "-vet=off", "-count=1", "-timeout", "30m", "-run", run, pkg], cwd=mod)
+            race = ["-race"] if "-race" in meta.get("demo_cmd", "") else []
+            rc, o = sh(["go", "test", "-vet=off", "-count=1", "-timeout", "30m"] + race + ["-run", run, pkg], cwd=mod)
             os.remove(dst)
             return rc, o[-1500:]
         rc, o = demo()
